@@ -128,8 +128,9 @@ Lemma create_cells_permitted o selects omits ps stored mk wh x :
   1000 < c_row x /\ exists f, In f s /\ has_col f = true /\ c_col x = f_db f /\ creatable f = true.
 Proof.
   intros Ho H. assert (H' : In x (new_rows s [] (sort_fields s (create_fields s
-            (select_and_omit s table selects omits true false) (any_key ps))) ps 1001)).
-  { destruct Ho as [->| ->]; exact H. }
+            (select_and_omit s table selects omits true false) ps)) ps 1001)).
+  { destruct Ho as [->| ->]; cbn [run_op] in H;
+      destruct (default_placeholder_error _ ps); try contradiction; exact H. }
   destruct (new_rows_in _ _ _ _ _ H') as (f & Hf & C & R). split; [lia|].
   apply sort_fields_sub in Hf.
   - destruct (create_fields_creatable s table Hwf selects omits _ f Hf) as (A & B & D). exists f. auto.
@@ -179,7 +180,7 @@ Lemma autoupdate_map_old_refuted : exists s table selects omits p f,
 Proof.
   exists schema_t1, "t1"%string, [SName "name"%string], [],
          (0, [("name"%string, false); ("updated_at"%string, false)]),
-         (mk_field "UpdatedAt" "updated_at" false None None None false AUpdate).
+         (mk_field "UpdatedAt" "updated_at" false false None None None false AUpdate).
   split; [apply wfb_wf; vm_compute; reflexivity|].
   split; [vm_compute; tauto|]. repeat (split; [reflexivity|]).
   intros [k H]. vm_compute in H. destruct H as [H|[]]. discriminate H.
@@ -201,3 +202,6 @@ Qed.
 Lemma foi_assign_cells s table selects omits ps stored mk wh :
   out_cells (run_op s table OFoiAssign selects omits ps stored mk wh) = [].
 Proof. reflexivity. Qed.
+
+Lemma slice_match_refuted : exists l ks, key_match (MSlice l) ks = true /\ ~ In (hd 0 ks) l.
+Proof. exists [2; 0], [1]. split; [reflexivity|]. cbn. intros [H|[H|[]]]; discriminate. Qed.
